@@ -44,7 +44,7 @@ TraceInit ==
     /\ ph = "idle" /\ call = [kind |-> "do", mem |-> <<>>, inj |-> <<>>, migrated |-> {}, deny |-> {}]
     /\ pk = <<>> /\ pg = <<>> /\ cc0 = NoKey /\ todo = EmptyF /\ run = EmptyF /\ nextm = EmptyF /\ redirs = FALSE /\ rdelay = FALSE
     /\ redirects = 0 /\ attempts = 1 /\ res = <<>> /\ fresh = FALSE /\ hist = <<>> /\ nlog = EmptyF
-    /\ calls = 0 /\ changes = 0 /\ script = <<>>
+    /\ calls = 0 /\ changes = 0 /\ script = <<>> /\ pool = 0
     /\ l = 1 /\ reports = EmptyF /\ pend = {} /\ TLCSet(1, 1)
 
 TReset ==
@@ -55,7 +55,7 @@ TReset ==
     /\ pk' = <<>> /\ pg' = <<>> /\ cc0' = NoKey /\ todo' = EmptyF /\ run' = EmptyF /\ nextm' = EmptyF /\ redirs' = FALSE /\ rdelay' = FALSE
     /\ redirects' = 0 /\ attempts' = 1 /\ res' = <<>> /\ fresh' = FALSE /\ hist' = <<>> /\ nlog' = EmptyF
     /\ reports' = EmptyF /\ pend' = {}
-    /\ UNCHANGED <<truth, migr, stale, report, inj, calls, changes, script>>
+    /\ UNCHANGED <<truth, migr, stale, report, inj, calls, changes, script, pool>>
 
 TTopo == /\ Is("Topo") /\ Step /\ reports' = Put(reports, Ev.ver, ToRep(Ev.trep)) /\ UNCHANGED <<vars, pend>>
 
@@ -76,7 +76,7 @@ Apply == /\ \/ ph = "pick"
               /\ pend' = {x \in pend : x[1] > e[1]}
          /\ fresh' = (fresh \/ ph = "pick")
          /\ UNCHANGED <<envv, inj, opt, lazy, ph, call, pk, pg, cc0, todo, run, nextm, redirs, rdelay, redirects, attempts, res,
-                        obsv, calls, changes, script, l, reports>>
+                        obsv, calls, changes, script, pool, l, reports>>
 
 TCall == /\ Is("Call") /\ Step /\ TSame
          /\ Call([kind |-> Ev.kind, mem |-> Ev.mem, inj |-> [i \in 1..Len(Ev.mem) |-> <<>>], migrated |-> {}, deny |-> Range(Ev.deny)])
@@ -91,7 +91,7 @@ TX == /\ Is("X") /\ Ev.op # "aux" /\ Step /\ TSame
                 /\ (Unordered \/ run[k].conn \in {0, Ev.conn})
                 /\ Recv(k, p, [rep |-> Ev.rep, to |-> Ev.to], Ev.conn)
       /\ UNCHANGED <<envv, inj, opt, mapv, lazy, ph, call, pk, pg, cc0, todo, nextm, redirs, rdelay, redirects, attempts, res, fresh,
-                     calls, changes, script>>
+                     calls, changes, script, pool>>
 
 \* ASKING, CLIENT CACHING YES and the PTTL / MULTI / EXEC wrapper of client side caching carry no routing decision
 TAux == Is("X") /\ Ev.op = "aux" /\ Step /\ TSame /\ UNCHANGED vars
@@ -108,10 +108,10 @@ TRet == /\ Is("Ret") /\ Step /\ TSame
         /\ ph = "done" /\ ResMatch(res, Ev.res)
         /\ ph' = "idle"
         /\ UNCHANGED <<envv, inj, opt, mapv, lazy, call, pk, pg, cc0, todo, run, nextm, redirs, rdelay, redirects, attempts, res, fresh,
-                       obsv, calls, changes, script>>
+                       obsv, calls, changes, script, pool>>
 
 TDown == /\ Is("Down") /\ Step /\ TSame /\ down' = down \cup {Ev.node}
-         /\ UNCHANGED <<truth, migr, stale, report, inj, opt, mapv, lazy, callv, obsv, calls, changes, script>>
+         /\ UNCHANGED <<truth, migr, stale, report, inj, opt, mapv, lazy, callv, obsv, calls, changes, script, pool>>
 
 Silent == \/ Apply
           \/ /\ UNCHANGED <<l, reports, pend>>
